@@ -44,7 +44,7 @@ def _expand(item):
     return {"diverged": False, "succ": out}
 
 
-def bfs(ctx, system, depth: int, max_states: int | None = None):
+def bfs(ctx, system, depth: int, max_states: int | None = None, isolate: bool = False):
     """Returns dict(states, transitions, max_depth, violations, capped, samples, distinct_observations)."""
     global _SYSTEM
     _SYSTEM = system
@@ -59,7 +59,8 @@ def bfs(ctx, system, depth: int, max_states: int | None = None):
     level = 0
     sample_hist = []
     while frontier and level < depth:
-        results = ctx.pmap(_expand, frontier, chunksize=max(1, len(frontier) // (ctx.workers * 8) or 1),
+        from .core import Isolated
+        results = ctx.pmap(Isolated(_expand) if isolate else _expand, frontier, chunksize=max(1, len(frontier) // (ctx.workers * 8) or 1),
                            recheck=min(4, len(frontier)))
         nxt = []
         for item, res in zip(frontier, results):
